@@ -42,6 +42,15 @@ fn legacy_toml(n: u64) -> String {
     format!("version = 1\n[core]\nmerkle_tree_max_proofs = {}\n", 3 + n % 50)
 }
 
+/// global event sequence of the concurrent run (one thread runs at a time under the turnstile,
+/// so invocation and completion stamps are totally ordered)
+static SEQ: std::sync::atomic::AtomicU64 = std::sync::atomic::AtomicU64::new(1);
+static CANCEL_DONE: std::sync::atomic::AtomicU64 = std::sync::atomic::AtomicU64::new(0);
+
+fn is_cancelled_err(o: &Outcome) -> bool {
+    o.err_kind().map(|e| e.ends_with("OperationCancelled")).unwrap_or(false)
+}
+
 struct Pool {
     ctxs: Vec<Arc<c2pa::Context>>,
     vctxs: Vec<Arc<c2pa::Context>>,
@@ -58,9 +67,12 @@ fn make_pool(n: usize) -> Pool {
     Pool { ctxs, vctxs }
 }
 
-fn run_list(list: &[TOp], pool: &Pool, scen: &std::collections::BTreeMap<(u8, String), Scenario>, yield_on_op: bool) -> (Vec<Outcome>, String) {
+fn run_list(list: &[TOp], pool: &Pool, scen: &std::collections::BTreeMap<(u8, String), Scenario>, yield_on_op: bool) -> (Vec<Outcome>, String, Vec<u64>) {
+    use std::sync::atomic::Ordering::SeqCst;
     let mut outs = Vec::new();
+    let mut invoked = Vec::new();
     for t in list {
+        invoked.push(SEQ.fetch_add(1, SeqCst));
         match t {
             TOp::Sdk { op, ctx, fmt } => {
                 let sc = &scen[&(*op as u8, fmt.name().to_string())];
@@ -92,6 +104,7 @@ fn run_list(list: &[TOp], pool: &Pool, scen: &std::collections::BTreeMap<(u8, St
             }
             TOp::Cancel => {
                 pool.ctxs[2].cancel();
+                CANCEL_DONE.store(SEQ.fetch_add(1, SeqCst), SeqCst);
                 turnstile::note("cancel");
                 outs.push(Outcome::Unit);
             }
@@ -99,7 +112,7 @@ fn run_list(list: &[TOp], pool: &Pool, scen: &std::collections::BTreeMap<(u8, St
     }
     #[allow(deprecated)]
     let tl = c2pa::Settings::to_toml().unwrap_or_else(|e| format!("ERR {e:?}"));
-    (outs, tl)
+    (outs, tl, invoked)
 }
 
 impl Property for C24 {
@@ -107,7 +120,7 @@ impl Property for C24 {
         Meta {
             id: "C24",
             level: "exploration",
-            rule: "one evaluation = one concurrent execution, under the turnstile scheduler (real threads, one runnable, next chosen by the PRNG at every stream call / progress callback / explicit point), of 2-6 caller threads each running a seeded list of 2-5 operations (sign, read, add-ingredient on JPEG/PNG/MP4; Settings builder calls; deprecated thread-local Settings::from_toml; Context::cancel on the one cancellable context) over a pool of shared Arc<Context>s with different settings (trust anchors / none / cancellable) and private contexts. Reference = the same per-thread lists run one thread after another on fresh equally configured contexts without the cancel. Oracle: every operation on a never-cancelled context yields the reference outcome (same error kind, or same report/codes); operations on the cancellable context yield the reference outcome or OperationCancelled; each thread's legacy thread-local settings at the end equal the reference's. Non-trivial = at least two threads interleaved; distinct = interleaving signature (hash of the (thread, seam label) sequence)",
+            rule: "one evaluation = one concurrent execution, under the turnstile scheduler (real threads, one runnable, next chosen by the PRNG at every stream call / progress callback / explicit point), of 2-6 caller threads each running a seeded list of 2-5 operations (sign, read, add-ingredient on JPEG/PNG/MP4; Settings builder calls; deprecated thread-local Settings::from_toml; Context::cancel on the one cancellable context) over a pool of shared Arc<Context>s with different settings (trust anchors / none / cancellable) and private contexts. Reference = the same per-thread lists run one thread after another on fresh equally configured contexts without the cancel. Oracle: every operation on a never-cancelled context yields the reference outcome (same error kind, or same report/codes); operations on the cancellable context yield the reference outcome or OperationCancelled, and those invoked after cancel() had returned (global event sequence) yield OperationCancelled; the cancelled context still reports is_cancelled at the end; each thread's legacy thread-local settings at the end equal the reference's. Every eighth run is a cancel sweep instead: operation A (read / add-ingredient / sign) on a fresh context with Context::cancel delivered at every one of its stream calls and progress callbacks in turn (the schedules in which the canceller runs exactly there), then a read B on the same context: A yields its sequential result or OperationCancelled, the context reports is_cancelled, B yields OperationCancelled. Non-trivial = at least two threads interleaved; distinct = interleaving signature (hash of the (thread, seam label) sequence)",
             assumptions: &["scheduling granularity is the seam call, not the memory model", "contexts are created before the threads start (Context::new snapshots thread-local legacy settings of the creating thread)"],
             real: &["c2pa Context (Arc-shared), Builder, Reader, Settings, thread-local legacy settings, OpenSSL mutex, lazy statics"],
             stubbed: &["thread scheduling (turnstile)", "caller streams (SimStream)"],
@@ -124,6 +137,9 @@ impl Property for C24 {
 
     fn run(&self, rc: &mut RunCtx) -> RunOut {
         let mut out = RunOut::default();
+        if rc.idx % 8 == 7 {
+            return cancel_sweep(rc);
+        }
         let mut r = rc.rng.fork("w");
         let n_threads = r.usize(2, 6);
         let n_ctx = 3 + n_threads; // 0,1,2 shared; 3.. private per thread
@@ -177,7 +193,7 @@ impl Property for C24 {
             lists.push(l);
         }
         // reference: sequential, fresh contexts, fresh OS thread per list, no cancel
-        let mut reference: Vec<(Vec<Outcome>, String)> = Vec::new();
+        let mut reference: Vec<(Vec<Outcome>, String, Vec<u64>)> = Vec::new();
         {
             let pool = Arc::new(make_pool(n_ctx));
             for l in &lists {
@@ -196,6 +212,8 @@ impl Property for C24 {
         }
         // concurrent run under the turnstile
         let pool = Arc::new(make_pool(n_ctx));
+        SEQ.store(1, std::sync::atomic::Ordering::SeqCst);
+        CANCEL_DONE.store(0, std::sync::atomic::Ordering::SeqCst);
         let sched = rc.rng.fork("sched");
         turnstile::begin(sched, rc.schedule_in.clone(), 3);
         let mut handles = Vec::new();
@@ -221,7 +239,7 @@ impl Property for C24 {
             TOp::Cancel => "cancel(ctx2)".into(),
         }).collect::<Vec<_>>();
         for (t, h) in handles.into_iter().enumerate() {
-            let (outs, tl) = match h.join() {
+            let (outs, tl, invoked) = match h.join() {
                 Ok(x) => x,
                 Err(_) => {
                     out.schedule = Some(tso.decisions.clone());
@@ -229,7 +247,8 @@ impl Property for C24 {
                     continue;
                 }
             };
-            let (r_outs, r_tl) = &reference[t];
+            let (r_outs, r_tl, _) = &reference[t];
+            let cancel_done = CANCEL_DONE.load(std::sync::atomic::Ordering::SeqCst);
             let mut ri = 0;
             for (i, o) in lists[t].iter().enumerate() {
                 if matches!(o, TOp::Cancel) {
@@ -239,8 +258,19 @@ impl Property for C24 {
                 ri += 1;
                 let got = &outs[i];
                 let on_cancellable = matches!(o, TOp::Sdk { ctx: 2, .. }) && canceller.is_some();
-                let ok = got == want || (on_cancellable && got.err_kind() == Some("OperationCancelled"));
-                if on_cancellable && got.err_kind() == Some("OperationCancelled") {
+                // an operation invoked after cancel() returned is cancelled in every sequential order
+                let after_cancel = on_cancellable && cancel_done > 0 && invoked[i] > cancel_done;
+                if after_cancel {
+                    out.probe("op_invoked_after_cancel");
+                    if !is_cancelled_err(got) {
+                        out.schedule = Some(tso.decisions.clone());
+                        out.violate(t as u64, "cancel-lost:op-after-cancel-not-cancelled", "C24 an operation started on a context after cancel() returned reports OperationCancelled, as in every sequential order",
+                            json!({"thread": t, "op_index": i, "lists": lists.iter().map(descr).collect::<Vec<_>>(), "concurrent": got.brief(), "canceller": canceller}));
+                        continue;
+                    }
+                }
+                let ok = got == want || (on_cancellable && is_cancelled_err(got));
+                if on_cancellable && is_cancelled_err(got) {
                     out.fault("cross_thread_cancel_observed");
                 }
                 if !ok {
@@ -261,10 +291,97 @@ impl Property for C24 {
                     json!({"thread": t, "lists": lists.iter().map(descr).collect::<Vec<_>>()}));
             }
         }
+        if canceller.is_some() && CANCEL_DONE.load(std::sync::atomic::Ordering::SeqCst) > 0 && !pool.ctxs[2].is_cancelled() {
+            out.schedule = Some(tso.decisions.clone());
+            out.violate(99, "cancel-lost:flag-cleared", "C24 a cancelled context stays cancelled (is_cancelled)",
+                json!({"lists": lists.iter().map(descr).collect::<Vec<_>>(), "canceller": canceller}));
+        }
         out.fault("seeded_interleaving");
         out.sample = Some(json!({"threads": n_threads, "lists": lists.iter().map(descr).collect::<Vec<_>>(), "seam_events": tso.events, "switches": tso.switches, "canceller": canceller}));
         out.digest = tso.trace_digest;
         let _ = Rng::new(0);
         out
     }
+}
+
+/// Cancellation from another party landing at every seam event of an operation A (every stream
+/// call, every progress callback) - the schedules in which the canceller thread runs exactly
+/// there - followed by a read B on the same context.
+fn cancel_sweep(rc: &mut RunCtx) -> RunOut {
+    let mut out = RunOut::default();
+    let mut r = rc.rng.fork("sweep");
+    let fmt = *r.pick(&[Fmt::Jpeg, Fmt::Png, Fmt::Mp4, Fmt::Gif, Fmt::Wav]);
+    let op = *r.pick(&[Op::Read, Op::Read, Op::AddIngredient, Op::Sign]);
+    let base = Arc::new(sdk::make_context(&json!({})));
+    c2pa::verif::set_random_seed(Some(hash_str(&format!("c24-sweep-{}-{}", rc.seed, rc.idx))));
+    let asset = assets::generate(fmt, &mut r);
+    let (sa, sb) = match (
+        ops::prepare(op, fmt, "ed25519", asset.clone(), sdk::simple_definition("c24"), &base),
+        ops::prepare(Op::Read, fmt, "ed25519", asset, sdk::simple_definition("c24"), &base),
+    ) {
+        (Ok(a), Ok(b)) => (a, b),
+        (Err(e), _) | (_, Err(e)) => {
+            out.harness_error = Some(format!("prepare: {e}"));
+            return out;
+        }
+    };
+    let vctx = Arc::new(sdk::make_context(&json!({})));
+    // dry run: count seam events and take the reference outcome
+    let run_a = |at_op: Option<u64>, at_cb: Option<usize>| -> (Outcome, Outcome, bool, u64, usize) {
+        let ctx = ops::make_ctx(&json!({}));
+        let world = stream::new_world(FaultPlan::default(), None);
+        if let Some(k) = at_op {
+            world.lock().unwrap().cancel_at_op = Some((k, ctx.clone()));
+        }
+        ops::cb_reset(Some(world.clone()), None);
+        if let Some(k) = at_cb {
+            ops::CB.with(|c| c.borrow_mut().flag_at = Some((k, ctx.clone())));
+        }
+        let a = ops::exec(&sa, &ExecEnv { ctx: &ctx, verify_ctx: &vctx, world: &world, pend: None });
+        let n_ops = stream::stats(&world).ops;
+        let n_cb = ops::cb_take_log().len();
+        let flagged = ctx.is_cancelled();
+        let world_b = stream::new_world(FaultPlan::default(), None);
+        ops::cb_reset(Some(world_b.clone()), None);
+        let b = ops::exec(&sb, &ExecEnv { ctx: &ctx, verify_ctx: &vctx, world: &world_b, pend: None });
+        ops::cb_reset(None, None);
+        (a, b, flagged, n_ops, n_cb)
+    };
+    let (ref_a, ref_b, _, n_ops, n_cb) = run_a(None, None);
+    let tag = format!("{}:{}", op.name(), fmt.name());
+    let mut points: Vec<(bool, u64)> = (0..n_ops).map(|k| (true, k)).collect();
+    points.extend((1..=n_cb as u64).map(|k| (false, k)));
+    for (i, (is_op, k)) in points.iter().enumerate() {
+        let sub = i as u64;
+        if !rc.want_sub(sub) {
+            continue;
+        }
+        rc.mark(sub);
+        out.evals += 1;
+        out.fault("cancel_from_other_party");
+        out.keys.push(hash_str(&format!("{tag}|{is_op}|{k}")));
+        let (a, b, flagged, _, _) = if *is_op { run_a(Some(*k), None) } else { run_a(None, Some(*k as usize)) };
+        let at = format!("{} {k} of {}", if *is_op { "stream call" } else { "progress callback" }, if *is_op { n_ops } else { n_cb as u64 });
+        // composite operations (add-ingredient then sign) may be cancelled in their second half
+        let a_cancelled = a.err_kind().map(|e| e.ends_with("OperationCancelled")).unwrap_or(false);
+        if a_cancelled {
+            out.probe("sweep:A-cancelled");
+        } else {
+            out.probe("sweep:A-completed");
+        }
+        if !(a_cancelled || a == ref_a) {
+            out.violate(sub, &format!("cancel-changes-result:{}", op.name()), "C24 an operation overlapping a cancel yields its sequential result or OperationCancelled",
+                json!({"scenario": tag, "cancel_at": at, "observed": a.brief(), "sequential": ref_a.brief()}));
+        }
+        if !flagged {
+            out.violate(sub, "cancel-lost:flag-cleared", "C24 a cancelled context stays cancelled (is_cancelled)",
+                json!({"scenario": tag, "cancel_at": at, "A": a.brief()}));
+        } else if !b.err_kind().map(|e| e.ends_with("OperationCancelled")).unwrap_or(false) {
+            out.violate(sub, "cancel-lost:op-after-cancel-not-cancelled", "C24 an operation started on a context after cancel() returned reports OperationCancelled, as in every sequential order",
+                json!({"scenario": tag, "cancel_at": at, "A": a.brief(), "B": b.brief(), "B_without_cancel": ref_b.brief()}));
+        }
+    }
+    out.sample = Some(json!({"scenario": format!("cancel sweep {tag}"), "stream_calls": n_ops, "callbacks": n_cb}));
+    out.digest = hash_str(&format!("{tag}|{n_ops}|{n_cb}"));
+    out
 }
